@@ -130,6 +130,7 @@ def run(ctx):
             ctx.inconclusive += 1
             ctx.count("invalid_scenarios")
     disappeared_family(ctx, rng, 250 if quick else 2500)
+    appearing_family(ctx, rng, 250 if quick else 2500)
     ctx.rule = ("twin scenarios of 3..8 statements (85%% with discovered deps, 35%% of generated headers without manifest path) x 1..4 "
                 "rounds of change sets + build; distinct_nontrivial = distinct (scenario, build step) twin comparisons in which at least "
                 "one statement with discovered dependencies was in the closure")
@@ -242,6 +243,91 @@ def disappeared_family(ctx, rng, n):
             ctx.violation("C10/disappeared-dependency/not-converged", "%s: the next build runs %s" % (what, [e["o"] for e in t4["events"] if e["e"] == "S"]), rep)
             continue
         ctx.count("disappeared_dependency_ok")
+
+
+def appearing_family(ctx, rng, n):
+    """'Once a command has reported a dependency ... changing it re-runs the command' - also when the run that reported it left
+    the command's output as it was.  A consumer reads an optional header that does not exist at first; the header appears with
+    content that does not reach the output (simlib.HOLLOW) and the consumer runs again for another reason (its source is
+    touched): a restat consumer keeps its output, a plain one rewrites the same bytes - either way the dependency list it reports
+    has grown.  When the header then gets real content the consumer has to run again and the tree has to equal a clean build."""
+    jobs = []
+    for k in range(n):
+        g = gen.Gen(random.Random(rng.randint(0, 2 ** 60)), size=rng.randint(2, 6),
+                    feat=dict(deps=0.9, restat=0.6, phony=0.15, generator=0.0, rsp=0.05, vals=0.05, chain=0.9, dyndep=0.0, early=0.0))
+        sc = g.scenario("C10-%d-new-%d" % (ctx.seed, k))
+        cons = [s for s in sc["stmts"] if s["kind"] == "cmd" and s["deps"] != "none" and s["ins"] and s["ins"][0] in sc["sources"]]
+        if not cons:
+            continue
+        c = rng.choice(cons)
+        if rng.random() < 0.6:
+            c["restat"] = True
+        opt = "new_%s.h" % c["id"]
+        src = c["ins"][0]
+        sc["sources"][src] = "#maybe %s\n" % opt + sc["sources"][src]
+        sc["defaults"] = []
+        b = lambda sd: {"op": "build", "targets": [], "j": rng.choice((1, 2, 3)), "k": 1, "sched": {"mode": "prng", "seed": sd}}
+        steps = [b(1), b(2), {"op": "write", "path": opt, "content": simlib.HOLLOW}, {"op": "touch", "path": src}, b(3), b(4),
+                 {"op": "write", "path": opt, "content": "// now with content %d\n" % k}, b(5), b(6)]
+        cur = copy.deepcopy(sc)
+        cur["sources"][opt] = "// now with content %d\n" % k
+        jobs.append((simlib.scenario_json(sc, steps), sc, cur, c, opt))
+    res = {}
+
+    def handler(scn, results, err):
+        res[scn["id"]] = results
+    simlib.run_scenarios([j[0] for j in jobs], handler)
+    for scn, sc, cur, c, opt in jobs:
+        r = res.get(scn["id"])
+        if not r:
+            ctx.inconclusive += 1
+            continue
+        builds = [x for x in r if x.get("op") == "build"]
+        crash = next((b_["trace"] for b_ in builds if b_.get("trace", {}).get("crash")), None)
+        if crash:
+            ctx.violation("C10/nsim-crash/" + (util.san_signature(crash.get("stderr", "")) or "crash"), "%s: %s" % (scn["id"], crash.get("stderr", "")[-1200:]), {"scenario": scn})
+            continue
+        if len(builds) < 6 or any(b_["trace"]["result"].get("exit") != 0 for b_ in builds[:2]):
+            ctx.inconclusive += 1
+            ctx.count("setup_failed")
+            continue
+        t3, t4, t5, t6 = (b_["trace"] for b_ in builds[2:6])
+        ctx.evaluations += 1
+        ctx.count("appearing_dependency_scenarios")
+        ctx.count("appearing_dependency_consumer_%s" % ("restat" if c["restat"] else "plain"))
+        ctx.nontrivial(("new", scn["id"]))
+        rep = {"scenario": scn, "consumer": c["id"], "appeared": opt}
+        what = "scenario %s: %s (deps=%s%s) reads %s once it exists" % (scn["id"], c["outs"][0], c["deps"], ", restat" if c["restat"] else "", opt)
+        st3 = [e["o"] for e in t3["events"] if e["e"] == "S"]
+        if t3["result"].get("exit") != 0 or c["outs"][0] not in st3:
+            ctx.violation("C10/appearing-dependency/consumer-not-rerun-after-touch", "%s: after its source was touched the build ran %s (exit %s)" %
+                          (what, st3, t3["result"].get("exit")), rep)
+            continue
+        if c["restat"] and c["outs"][0] in [o for e in t3["events"] if e["e"] == "F" for o in e.get("wrote", [])]:
+            ctx.count("appearing_dependency_output_rewritten_all_the_same")      # (an `early` writer: not the case this family is after)
+        if t4["result"].get("exit") != 0 or [e for e in t4["events"] if e["e"] == "S"]:
+            ctx.violation("C10/appearing-dependency/not-converged", "%s: the build after the header appeared is followed by one that runs %s" %
+                          (what, [e["o"] for e in t4["events"] if e["e"] == "S"]), rep)
+            continue
+        st5 = [e["o"] for e in t5["events"] if e["e"] == "S"]
+        if t5["result"].get("exit") != 0:
+            ctx.violation("C10/appearing-dependency/error", "%s: the build after the header got content fails: %s" % (what, t5["result"].get("err")), rep)
+            continue
+        if c["outs"][0] not in st5:
+            ctx.violation("C10/appearing-dependency/consumer-not-rerun/%s%s" % (c["deps"], "/restat" if c["restat"] else ""),
+                          "%s, which it reported in a run that left its output unchanged; the header then got real content and the build ran %s, exit 0" % (what, st5), rep)
+            continue
+        graph = model.Graph(cur, {p_: v[1] for p_, v in t5["world"]["files"].items() if p_ in cur["sources"]})
+        clean, _ = graph.clean()
+        bad = [o for s_ in cur["stmts"] if s_["kind"] == "cmd" for o in all_outs(s_) if t5["world"]["files"].get(o, [0, None])[1] != clean.get(o)]
+        if bad:
+            ctx.violation("C10/appearing-dependency/tree-differs", "%s: %s differs from a clean build afterwards" % (what, bad[:3]), rep)
+            continue
+        if t6["result"].get("exit") != 0 or [e for e in t6["events"] if e["e"] == "S"]:
+            ctx.violation("C10/appearing-dependency/not-converged", "%s: the last build is followed by one that runs %s" %
+                          (what, [e["o"] for e in t6["events"] if e["e"] == "S"]), rep)
+            continue
+        ctx.count("appearing_dependency_ok")
 
 
 def judge_pair(ctx, sD, sM, rD, rM, meta):
